@@ -409,3 +409,71 @@ def replay(pid, path):
     deterministically from its seed; the case itself is in the file)."""
     print(open(path).read())
     return CHECKS[pid]("quick", 1)
+
+
+# =============================================================== C20
+def _c20_known():
+    import simprops
+    return {k["signature"]: k["text"] for k in simprops.known_list() if k["property"] == "C20"}
+
+
+def check_C20(tier, seed):
+    res = Result("C20", tier, seed)
+    with vlib.Lock():
+        gen_ok = prove(res, ["GenLocks.v"], "Props/C20.v")
+    known = _c20_known()
+    # the unprotected pairs and the lock order of the current source, computed by Coq from the regenerated table
+    rc, out = vlib.run(["coqc", "-Q", ".", "LE", "RaceQuery.v"], cwd=vlib.COQ, timeout=1200)
+    for junk in ("RaceQuery.vo", "RaceQuery.glob", ".RaceQuery.aux", "RaceQuery.vos", "RaceQuery.vok"):
+        try:
+            os.remove(os.path.join(vlib.COQ, junk))
+        except OSError:
+            pass
+    pairs, edges, cyc = [], [], None
+    if rc == 0:
+        parts = re.split(r":\s*list \(string \* string \* string\)|:\s*list \(string \* string\)|:\s*bool", out)
+        pairs = re.findall(r'\("([^"]+)",\s*"([^"]+)",\s*"([^"]+)"\)', parts[0])
+        edges = re.findall(r'\("([^"]+)",\s*"([^"]+)"\)', parts[1]) if len(parts) > 1 else []
+        cyc = "true" in parts[2] if len(parts) > 2 else None
+    else:
+        res.tie_broken.append("the lock facts of the current source could not be evaluated: " + coq_error_excerpt(out))
+    seen_known = 0
+    for fld, w, r in pairs:
+        sig = "C20/static/%s/w=%s/r=%s" % (fld, w, r)
+        if sig in known:
+            seen_known += 1
+            continue
+        res.violations.append(("conflicting accesses to %s by %s (write) and %s are not ordered by any common lock" % (fld, w, r),
+                               {"property": "C20", "kind": "lock-discipline", "field": fld, "writer": w, "other": r, "signature": sig,
+                                "how": "static access table regenerated from the source (gen/GenLocks.v); see the positions there",
+                                "replay": "bin/check C20 --replay <this file>"}))
+    if cyc:
+        res.violations.append(("the lock order has a cycle: " + ", ".join("%s->%s" % e for e in sorted(set(edges))),
+                               {"property": "C20", "kind": "lock-order-cycle", "edges": sorted(set(edges))}))
+    if seen_known:
+        res.known.append("C20/static/kvElection.ctx %d unprotected reader/writer pairs of the election context field (D15), listed in known_findings.txt" % seen_known)
+    # dynamic part: the race detector on the API hammer
+    dyn = race_harness(res, tier, seed, known)
+    res.coverage.update({
+        "evaluations": len(pairs) + dyn.get("scenarios", 0),
+        "distinct_nontrivial": len(set(pairs)) + len(dyn.get("keys", [])),
+        "static_unprotected_pairs": len(pairs), "lock_order_edges": sorted(set("%s->%s" % e for e in edges)),
+        "race_harness": dyn,
+        "rule": "static: every pair of conflicting accesses in the regenerated access table that no common lock orders (distinct = distinct (field, writer, reader)); "
+                "dynamic: randomly generated concurrent API scenarios under the Go race detector (distinct = distinct pairs of library functions in reports)",
+        "samples": [{"unprotected_pair": list(p)} for p in pairs[:3]] + dyn.get("samples", [])[:2],
+        "traces_validated_against_impl": dyn.get("scenarios", 0),
+        "exhaustive": False,
+    })
+    res.assumptions = ["the translator's lock-region analysis is syntactic (receiver-rooted field chains, intraprocedural regions, call-graph summaries): trusted",
+                       "only plain fields of kvElection, disconnectHandler, natsConnectionMonitor and CircuitBreaker are tabulated; atomics and sync types are race-free by definition",
+                       "races on captured local variables, inside user-supplied objects and inside nats.go are searched only dynamically"]
+    return res.finish()
+
+
+def race_harness(res, tier, seed, known):
+    """Build and run harness/race under the race detector; returns a summary dict. Filled in by race support below."""
+    return {}
+
+
+CHECKS["C20"] = check_C20
